@@ -64,6 +64,10 @@ func ptr(b []byte) unsafe.Pointer {
 	return unsafe.Pointer(&b[0])
 }
 
+// Usable reports whether libgcrypt (1.10) accepts the inputs: it rejects an
+// empty passphrase and an empty salt (GPG_ERR_INV_VALUE).
+func Usable(pw, salt []byte) bool { return len(pw) > 0 && len(salt) > 0 }
+
 // Argon2 computes the tag with libgcrypt. secret and ad may be nil.
 func Argon2(variant int, pw, salt, secret, ad []byte, t, m, lanes uint32, tagLen int) ([]byte, error) {
 	once.Do(func() { C.vinit() })
